@@ -110,6 +110,19 @@ def main(tier):
             ms = mutants(name, text, rnd, per)
         for m in ms:
             add(m, {"kind": "mutant", "name": name})
+    # every layout/case variant of every statement form (the variant space of spec/Layout, enumerated by TLC)
+    sys.path.insert(0, os.path.join(os.path.dirname(os.path.abspath(__file__)), "..", "C08"))
+    import importlib.util
+    spec8 = importlib.util.spec_from_file_location("c08check", os.path.join(os.path.dirname(os.path.abspath(__file__)), "..", "C08", "check.py"))
+    c08 = importlib.util.module_from_spec(spec8)
+    spec8.loader.exec_module(c08)
+    lout = os.path.join(wd, "variants.ndjson")
+    if os.path.exists(lout):
+        os.remove(lout)
+    rl = V.tlc_must_pass(os.path.join(V.SPEC, "Layout", "MC_Layout.tla"), cfg=os.path.join(V.SPEC, "Layout", "MC_Layout.cfg"), env={"OUT": lout}, workers=4, timeout=1800, tag="C05-layout")
+    rep.add_tlc(rl)
+    for v in V.read_ndjson(lout):
+        add(c08.PRELUDE + c08.render(v["toks"]) + "\n", {"kind": "layout", "name": v["form"]})
     # concatenations of fragments of the example sources
     frags = [t[a:a + rnd.randrange(5, 80)] for _, t in corp for a in [rnd.randrange(max(1, len(t)))] * 1]
     for _ in range(300 if tier == "quick" else 3000):
